@@ -25,9 +25,10 @@ TRUSTED = [
     "functions change only what they reach from the processor they are given and do not depend on addresses "
     "(Section hypotheses run_frame / run_local); numpy's global generator is modelled as a value threaded through the runs "
     "(Model/HeapRng.v: `with set_random_seed` = start from seed_gen(seed), put the previous state back; that "
-    "exposure.run_pipeline brackets its whole body with the seed it is given is checked by the seeded behaviour cases, not "
-    "translated; threads sharing the generator: open finding of C07); other module-level state (lru_cache, probe TRACE) is "
-    "outside the store (C04/C20)",
+    "exposure.run_pipeline brackets its whole body with the seed it is given is not translated - it is the same function on "
+    "both sides of every comparison, the standalone exposure included; threads sharing the generator: open finding of C07); "
+    "other module-level state (lru_cache, probe TRACE, generators other than numpy's global one) is outside the store "
+    "(C04/C20)",
 ]
 
 CLS = {"Processor": "CProcessor", "Group": "CGroup", "Model": "CModel", "Args": "CArgs", "Pipeline": "CPipeline",
